@@ -109,6 +109,20 @@ def run(ctx):
         import shutil
         shutil.rmtree(d0, ignore_errors=True)
 
+    # 4a. layout after daemon start-up over pre-existing files: whatever was there, once the daemon
+    # has started and published, the bytes must be the documented layout (72-byte segment, size field
+    # covering it, the published record at the documented offsets), readable by new clients.
+    magic = bytes.fromhex(lines[0].split()[8])[:8]
+    lay_files = [f for f in c16.corpus(random.Random(ctx.seed), True) if f[0].startswith(("size-", "trunc-", "ver", "valid-header", "all-", "bad-", "gen0"))]
+    lviol, lstats, levals, _ls = c16.repair_phase(ctx, csim, lay_files, magic, [("tmpfs", "/dev/shm/cbverif-c17r-%d" % os.getpid())])
+    import shutil as _sh
+    _sh.rmtree("/dev/shm/cbverif-c17r-%d" % os.getpid(), ignore_errors=True)
+    for v in lviol:
+        v = dict(v)
+        v["sig"] = "layout-after-startup:" + v["sig"]
+        viol.append(v)
+    ctx.log("layout after start-up over %d pre-existing files: %s" % (len(lay_files), lstats))
+
     # 4b. a segment written by the real daemon binary (release, as shipped) in a private /run
     daemon_file = None
     from . import c13real, sandbox
@@ -163,17 +177,18 @@ def run(ctx):
     if len(statuses) < 3 or len(gens) < 100:
         inconclusive = "layout run saw %d statuses and %d generations" % (len(statuses), len(gens))
     coverage = {
-        "evaluations": len(lines) + n2 + n3 + err_cases,
+        "evaluations": len(lines) + n2 + n3 + err_cases + levals,
         "distinct_nontrivial": len(set(lines)) + err_cases,
         "rule": "(1) records with random field values published by the real ShmWriter, the file bytes decoded with offsets/widths/encodings transcribed by hand from docs/PROTOCOL.md (distinct = distinct (record, bytes) lines); "
                 "(2) the same vectors through ClockBoundClient and through a C program compiled from clockbound.h only and linked with libclockbound.a (ASan+UBSan, canaries) and libclockbound.so, virtual clock frozen at the same instant: answers must be identical; "
-                "(3) struct sizes and clock read order seen from C; (4) every failing open condition of the C16 corpus through all three APIs: same kind, errno, detail",
+                "(3) struct sizes and clock read order seen from C; (3b) after daemon start-up + publication over pre-existing files (every truncation, header-field edge values) the file is the documented 72-byte layout holding the published record; (4) every failing open condition of the C16 corpus through all three APIs: same kind, errno, detail",
         "samples": samples,
         "magic_reading_found": magic_seen,
         "statuses_published": {str(k): v for k, v in statuses.items()},
         "static_lib": info,
         "shared_lib": info_so,
         "error_parity_cases": err_cases,
+        "layout_after_startup": lstats,
         "valgrind": vg_info,
         "daemon_written_segment": daemon_file,
     }
